@@ -6,8 +6,8 @@ From Coq Require Import String.
 From RV Require Import Model.Base Model.BBox Model.Export Gen.BBoxTables Proofs.BBox Proofs.Export.
 Local Open Scope Q_scope.
 
-(* 'nothing to render' exactly when the node has no absolute layer box: never for groups, for paths / images / text
-   exactly when the absolute bounding box has zero width or height *)
+(* 'nothing to render' exactly when the node has no absolute layer box: never for groups, for paths / text exactly when the
+   absolute STROKE box (images: the absolute box) has zero width or height - a stroked horizontal line has a layer (ece95dc) *)
 Theorem C19_none_iff_zero : forall n tr,
   (render_node_ts n tr = None <-> abs_layer_bounding_box n = None) /\
   (abs_layer_bounding_box n = None <->
@@ -82,8 +82,11 @@ Example C19_ex_group :
   | None => false
   end = true.
 Proof. vm_compute. reflexivity. Qed.
+(* an unstroked horizontal line (stroke box = fill box 0,5 - 10,5) has nothing to render; with a stroke of width 6 it exports *)
 Example C19_ex_none : render_node_ts (ELeaf "l" ts_identity (mkbox 0 5 10 5)) ts_identity = None.
 Proof. vm_compute. reflexivity. Qed.
+Example C19_ex_stroked_line : render_node_ts (ELeaf "l" ts_identity (mkbox 0 2 10 8)) ts_identity <> None.
+Proof. vm_compute. discriminate. Qed.
 Example C19_ex_by_id :
   let t := EGroup "" ts_identity ts_identity (mkbox 0 0 1 1)
              [EGroup "a" ts_identity ts_identity (mkbox 0 0 1 1) [ELeaf "b" ts_identity (mkbox 0 0 1 1)]; ELeaf "b" ts_identity (mkbox 0 0 2 2)] in
